@@ -28,7 +28,7 @@ REG = dict(category="exploration",
 P = 2**256 - 2**32 - 977
 N = 0xFFFFFFFFFFFFFFFFFFFFFFFFFFFFFFFEBAAEDCE6AF48A03BBFD25E8CD0364141
 LAMBDA = 0x5363AD4CC05C30E0A5261C028812645A122E22EA20816678DF02967C1B23BD72
-QUICK_VARIANTS = ["std", "verify", "i64v", "noasm"]   # noasm: the portable C 4x64 scalar code is not compiled in the pinned build
+QUICK_VARIANTS = ["std", "verify", "i64v", "noasm", "w8", "w2"]   # noasm: the portable C 4x64 scalar code is not compiled in the pinned build
 THOROUGH_VARIANTS = ["std", "verify", "i64v", "i128sv", "noasm", "w2", "w8"]
 VERIFY_VARIANTS = {"verify", "i64v", "i128sv"}
 
